@@ -137,8 +137,27 @@ def gen_case(rng, max_m=8, n_max=7, allow=("r", "rhomid", "coincide", "modes")):
     rho = [(rng.choice([0.0, 0.0, 0.25]) if "rhomid" in allow else 0.0) for _ in range(m - 1)] + [rng.choice([0.0, 0.5, 0.5, 1.0])]
     r = [rng.choice([0.0, 0.5, 1.0]) for _ in range(m)] if ("r" in allow and rng.random() < 0.3) else None
     return {"lam": lam, "mu": mu, "psi": psi, "rho": rho, "times": times, "r": r, "survival": rng.random() < 0.5,
-            "tips": tips, "ints": ints, "tree": tree, "mode": mode, "root_edge": mode == "given" and rng.random() < 0.2,
-            "short_rho": not any(rho[:-1]) and rng.random() < 0.5, "no_rho": not any(rho) and rng.random() < 0.5}
+            "tips": tips, "ints": ints, "tree": tree, "mode": mode, "root_edge": rng.random() < 0.25,
+            "short_rho": not any(rho[:-1]) and rng.random() < 0.5, "no_rho": not any(rho) and rng.random() < 0.5,
+            # the order in which the node heights are handed to the implementation: any numbering of the internal nodes (their
+            # heights are NOT monotone in the node index in general; torchtree's one convention is that the ROOT is the last node)
+            # and of the tips
+            "iperm": rng.sample(range(len(ints) - 1), len(ints) - 1) + [len(ints) - 1], "tperm": rng.sample(range(len(tips)), len(tips))}
+
+
+def heights_list(c):
+    """node heights as handed to log_prob: tips then internal nodes, each in the case's own numbering (c['ints'] itself is kept
+    ascending for the oracles and the Lean model, which are functions of the multiset)"""
+    tp = c.get("tperm") or range(len(c["tips"]))
+    ip = c.get("iperm") or range(len(c["ints"]))
+    return [c["tips"][i] for i in tp] + [c["ints"][i] for i in ip]
+
+
+def postorder_ints(node):
+    """internal heights numbered children first (the numbering a tree model gives them): not monotone for balanced trees"""
+    if len(node) == 1:
+        return []
+    return postorder_ints(node[1]) + postorder_ints(node[2]) + [node[0]]
 
 
 def features(c):
@@ -210,7 +229,7 @@ def impl_value(c):
     torch = T()["torch"]
     try:
         d = impl_dist(c)
-        heights = TT(c["tips"] + c["ints"])
+        heights = TT(heights_list(c))
         supplied = {k: t_.clone() for k, t_ in d._c09_inputs.items()}
         supplied["node_heights"] = heights.clone()
         held = dict(d._c09_inputs, node_heights=heights)
@@ -312,6 +331,9 @@ def close(a, b, rel=1e-10):
 def slim(c):
     d = {k: c[k] for k in ("lam", "mu", "psi", "rho", "times", "r", "survival", "tips", "ints", "mode", "root_edge", "short_rho", "tree")}
     d["no_rho"] = bool(c.get("no_rho"))
+    for k in ("iperm", "tperm"):
+        if c.get(k):
+            d[k] = list(c[k])
     return d
 
 
@@ -332,7 +354,14 @@ def tree_json(c):
     nwk, tips = to_newick(c["tree"], names)
     youngest = 0.0
     dates = {nm: youngest - age for nm, age in tips}  # date = -age (heights are max(date) - date)
-    tj = TimeTreeModel.json_factory("tree", nwk + ";", c["ints"], dates, internal_heights_id="tree.heights")
+    ints = postorder_ints(c["tree"])
+    if sorted(ints) != sorted(c["ints"]):  # the heights were moved (histories, tree-change check): keep the numbering, take the new values
+        rank = sorted(range(len(ints)), key=lambda i: ints[i])
+        moved = sorted(c["ints"])
+        ints = [0.0] * len(rank)
+        for pos, i in enumerate(rank):
+            ints[i] = moved[pos]
+    tj = TimeTreeModel.json_factory("tree", nwk + ";", ints, dates, internal_heights_id="tree.heights")
     if _REG["name"] != "f64":
         tj["internal_heights"]["dtype"] = str(in_dtype())
     return tj
@@ -383,7 +412,7 @@ def grad_modes(c):
     for mode in ("autograd", "no_grad", "requires_grad"):
         try:
             d = impl_dist(c)
-            heights = TT(c["tips"] + c["ints"])
+            heights = TT(heights_list(c))
             if mode == "requires_grad":
                 for t_ in list(d._c09_inputs.values()) + [heights]:
                     t_.requires_grad_(True)
@@ -512,7 +541,7 @@ def routes_pass(ck, fail, n):
         if len(c["lam"]) == 1:
             bd = T()["bd"].BirthDeath
             a = [TT(c[k]) for k in ("lam", "mu", "psi", "rho")] + [TT([c["times"][-1]])]
-            hs = TT(c["tips"] + c["ints"])
+            hs = TT(heights_list(c))
             try:
                 v1 = bd(*a, c["survival"]).log_prob(hs)
                 v2 = bd(survival=c["survival"], origin=a[4], rho=a[3], psi=a[2], mu=a[1], lambda_=a[0]).log_prob(hs)
@@ -655,6 +684,136 @@ def copies_and_moves(ck, fail, model, dic, spec_of, st, names, replay, cls):
                 fail(f"{cls}:move-changes-value", f"{cls}: after model.{what} the value is {v!r}, before {v0!r}", replay)
     except Exception as e:
         fail(f"{cls}:deepcopy-raises:{type(e).__name__}", f"{cls}: deepcopy / update of the copy / cpu() / to() raises {e!r}"[:220], replay)
+
+
+
+# ============================================================================ fifth-round classes: ordering and option products
+def spec_for(c, r_scalar=None):
+    """BDSKModel JSON for the case with EVERY convention option spelled as the case says"""
+    spec = bdsk_json(dict(c, mode="given" if c["mode"] == "none" else c["mode"]), "parameter")
+    if c["mode"] == "none":
+        spec.pop("times", None)
+    if c["root_edge"]:
+        spec["origin"] = P("origin", [c["times"][-1] - c["ints"][-1]])
+        spec["origin_is_root_edge"] = True
+    if r_scalar is not None:
+        spec["removal_probability"] = P("rem", [r_scalar] * len(c["lam"]))
+    return spec
+
+
+def products_pass(ck, drv, fail, n):
+    """every combination of the convention options — times None / absolute / relative x origin_is_root_edge x survival x removal —
+    through the constructor AND through BDSKModel JSON; each against the Lean model, against the same case spelled in the other
+    time convention, and constructor against JSON"""
+    rng = ck.rng
+    done = 0
+    guard = 0
+    while done < n and guard < 40 * n:
+        guard += 1
+        base = gen_case(rng, max_m=3, n_max=4, allow=("coincide", "rhomid"))
+        m = len(base["lam"])
+        if m < 2 or len(set(base["lam"])) < 2:
+            continue
+        T_ = base["times"][-1]
+        if any((b / T_) * T_ != b for b in base["times"][:-1]):
+            continue
+        done += 1
+        base.update(short_rho=False, no_rho=False, mode="given", root_edge=False, r=None)
+        for surv in (False, True):
+            for rem in (None, 0.5):
+                absolute = {}
+                for root_edge in (False, True):
+                    for mode in ("given", "relative", "none"):
+                        c0 = dict(base, survival=surv, root_edge=root_edge, mode=mode)
+                        if mode == "none":
+                            c0["times"] = [k * T_ / m for k in range(m)] + [T_]
+                        c = with_removal(c0, rem) if rem is not None else c0
+                        combo = f"times={ {'given': 'absolute', 'relative': 'relative', 'none': 'None'}[mode]},origin_is_root_edge={root_edge},removal={'r' if rem else 'None'}"
+                        kind, val = impl_value(c)
+                        ck.case(("product", done, surv, rem, root_edge, mode), nontrivial=True, bucket=f"product/{combo}")
+                        rp = {"case": slim(c), "combination": combo, "survival": surv}
+                        if kind != "ok":
+                            fail(f"bdsk:product-fails:{combo}", f"[{combo}, survival={surv}] log_prob {kind}: {val}", rp)
+                            continue
+                        if drv:
+                            mv = model_value(drv, c, effective_times(c))
+                            if mv is not None and not close(val, mv["value"]):
+                                fail(f"bdsk:product-vs-model:{combo}", f"[{combo}, survival={surv}] log_prob = {val!r}, the Lean model gives {mv['value']!r}",
+                                     dict(rp, impl=val, model=mv["value"]))
+                        if mode == "given":
+                            absolute[root_edge] = val
+                        elif mode == "relative" and root_edge in absolute and not close(val, absolute[root_edge], 1e-10):
+                            fail(f"bdsk:relative-vs-absolute:origin_is_root_edge={root_edge}",
+                                 f"[survival={surv}, removal={rem}] relative times {[x / T_ for x in c['times'][:-1]]} with origin_is_root_edge={root_edge} "
+                                 f"(origin argument {T_ - c['ints'][-1] if root_edge else T_}, root height {c['ints'][-1]}) give {val!r}; the same shifts spelled "
+                                 f"absolutely {c['times'][:-1]} give {absolute[root_edge]!r}", dict(rp, impl=val, absolute=absolute[root_edge]))
+                        if root_edge and False in absolute and mode == "given" and not close(val, absolute[False], 1e-10):
+                            fail("bdsk:root-edge-vs-origin", f"origin given as root edge {T_ - c['ints'][-1]} + root height gives {val!r}, given as origin {T_} gives "
+                                 f"{absolute[False]!r}", rp)
+                        # the same combination through BDSKModel JSON
+                        try:
+                            spec = spec_for(c0, rem)
+                            vj = float(build(spec)[0]().reshape(()).item())
+                            if not close(vj, val, 1e-9):
+                                fail(f"BDSKModel:product-differs:{combo}", f"[{combo}, survival={surv}] BDSKModel() = {vj!r}, the distribution built directly gives {val!r}",
+                                     dict(rp, spec=spec, impl=val))
+                        except Exception as e:
+                            fail(f"BDSKModel:product-raises:{combo}:{type(e).__name__}", f"[{combo}, survival={surv}] BDSKModel from JSON raises {e!r}"[:220], rp)
+
+
+def ordering_pass(ck, drv, fail, n_trees):
+    """the density is a function of the SET of node times: every numbering of the internal nodes (root last) and of the tips must
+    give the same value, with a rate shift placed between every adjacent pair of event times (identical rates: equal to the
+    single-epoch value; different rates: equal across numberings and to the Lean model)"""
+    import itertools
+
+    rng = ck.rng
+    for tno in range(n_trees):
+        c = gen_case(rng, max_m=1, n_max=5, allow=())
+        while len(c["ints"]) < 3:
+            c = gen_case(rng, max_m=1, n_max=5, allow=())
+        c.update(mode="given", root_edge=rng.random() < 0.3, short_rho=False, no_rho=False, r=None)
+        T_ = c["times"][-1]
+        k_, v1 = impl_value(c)
+        if k_ != "ok":
+            continue
+        events = sorted({T_ - h for h in c["tips"] + c["ints"]} | {0.0, T_})
+        mids = [(a + b) / 2 for a, b in zip(events, events[1:])]
+        perms = list(itertools.permutations(range(len(c["ints"]) - 1)))
+        if len(perms) > 6:
+            perms = [perms[0], perms[-1]] + rng.sample(perms[1:-1], 4)
+        natural = [sorted(c["ints"]).index(h) for h in postorder_ints(c["tree"])]  # the numbering a tree model gives
+        numberings = [list(p_) + [len(c["ints"]) - 1] for p_ in perms]
+        if natural[-1] == len(c["ints"]) - 1 and natural not in numberings:
+            numberings.append(natural)
+        for b in mids:
+            same = dict(c, lam=c["lam"] * 2, mu=c["mu"] * 2, psi=c["psi"] * 2, rho=[0.0] + c["rho"], times=[0.0, b, T_])
+            diff = dict(same, lam=[c["lam"][0], c["lam"][0] * 1.5], psi=[c["psi"][0] * 0.75, c["psi"][0]])
+            want = None
+            if drv:
+                mv = model_value(drv, diff, effective_times(dict(diff, iperm=None, tperm=None)))
+                want = mv["value"] if mv else None
+            seen = {}
+            for ip in numberings:
+                tp = rng.sample(range(len(c["tips"])), len(c["tips"]))
+                for label, cc, ref in (("identical rates", same, v1), ("different rates", diff, want)):
+                    cc = dict(cc, iperm=ip, tperm=tp)
+                    kk, vv = impl_value(cc)
+                    ck.case(("ordering", tno, b, tuple(ip), label), nontrivial=True, bucket="ordering/" + label)
+                    hl = heights_list(cc)[len(c["tips"]):]
+                    rp = {"case": slim(cc), "shift": b, "internal_heights_in_node_order": hl}
+                    if kk != "ok":
+                        fail(f"bdsk:ordering-fails:{label}", f"log_prob {kk}: {vv} with internal heights numbered {hl}", rp)
+                        continue
+                    if ref is not None and not close(vv, ref, 1e-9):
+                        fail(f"bdsk:ordering:{'split' if label == 'identical rates' else 'model'}",
+                             f"internal heights in node order {hl} (not monotone in the node index), rate shift at {b} between two adjacent events, {label}: "
+                             f"log_prob = {vv!r}; " + (f"the single epoch gives {ref!r}" if label == "identical rates" else f"the Lean model gives {ref!r}"),
+                             dict(rp, impl=vv, reference=ref))
+                    first = seen.setdefault(label, (vv, hl))
+                    if not close(vv, first[0], 1e-11):
+                        fail("bdsk:ordering:renumbering", f"renumbering the internal nodes of the same tree changes log_prob: heights {first[1]} -> {first[0]!r}, "
+                             f"heights {hl} -> {vv!r} (rate shift at {b}, {label})", dict(rp, impl=vv, other=first[0]))
 
 
 # ============================================================================ tensor constructors without a dtype
@@ -827,6 +986,8 @@ def run(ck: Check):
                 if rep.split() != [f2h(float(v)) for v in got]:
                     ck.mismatch("epidemiology_to_birth_death differs from the model", {"in": [R, d, s, r], "impl": [float(v) for v in got], "model": rep})
         # ---------------------------------------------------------------- corpus then generated cases
+        ordering_pass(ck, drv, fail, 12 if th else 4)
+        products_pass(ck, drv, fail, 8 if th else 2)
         routes_pass(ck, fail, 12 if th else 5)
         with regime("A"):
             routes_pass(ck, fail, 4 if th else 2)
@@ -879,6 +1040,12 @@ def run(ck: Check):
                     raise InfraError("drv_c09 rejected a well-formed request")
                 if not close(val, mv["value"]):
                     ck.mismatch("log_prob differs from the Lean model", {"case": slim(c), "impl": val, "model": mv["value"], "features": feats})
+                    conv = "+".join(x for x, on in (("relative-times", c["mode"] == "relative" and m > 1), ("no-times", c["mode"] == "none" and m > 1),
+                                                    ("root-edge", c["root_edge"]), ("removal", c["r"] is not None),
+                                                    ("heights-not-monotone", heights_list(c)[len(c["tips"]):] != sorted(c["ints"]))) if on) or "plain"
+                    fail(f"bdsk:model-differs:{conv}", f"log_prob = {val!r}, the Lean model (proved specification, evaluated in doubles) gives {mv['value']!r} "
+                         f"[{conv}; {', '.join(feats)}; {m} epoch(s); node heights handed over as {heights_list(c)}]", dict(replay, impl=val, model=mv["value"]))
+                    continue
                 td = torch_discrete(c, times)
                 for k in ("ix", "iy", "rhotip", "n", "N"):
                     if td[k] != mv[k]:
@@ -1174,7 +1341,7 @@ def histories(ck, fail, trials=6):
                   "s": [ps / (mu + ps) for mu, ps in zip(c["mu"], c["psi"])], "lambda": list(c["lam"]), "mu": list(c["mu"]), "psi": list(c["psi"]),
                   "rho": list(c["rho"]), "origin": [c["times"][-1]],
                   "times": [x / c["times"][-1] for x in c["times"][:-1]] if rel else list(c["times"][:-1]),
-                  "tree.heights": list(c["ints"]), "rem": [0.5] * m}
+                  "tree.heights": postorder_ints(c["tree"]), "rem": [0.5] * m}
 
             def spec_of(st):
                 cc = dict(c, ints=list(st["tree.heights"]))
@@ -1311,7 +1478,7 @@ def batches(ck, drv, fail, trials=12):
             if use_r:
                 held["removal_probability"] = d.removal_probability
             before = {k: t_.clone() for k, t_ in held.items()}
-            v = d.log_prob(tt([c["tips"] + c["ints"] for c in samples]))
+            v = d.log_prob(tt([heights_list(c) for c in samples]))
             rows = [float(x) for x in v.reshape(-1).tolist()]
             err = None if len(rows) == 3 else f"result has shape {list(v.shape)}"
             for k, t_ in held.items():
@@ -1353,7 +1520,7 @@ def histories_replay(obj, out):
           "s": [ps / (mu + ps) for mu, ps in zip(c["mu"], c["psi"])], "lambda": list(c["lam"]), "mu": list(c["mu"]), "psi": list(c["psi"]),
           "rho": list(c["rho"]), "origin": [c["times"][-1]],
           "times": [x / c["times"][-1] for x in c["times"][:-1]] if obj.get("relative_times") else list(c["times"][:-1]),
-          "tree.heights": list(c["ints"]), "rem": [0.5] * m}
+          "tree.heights": postorder_ints(c["tree"]), "rem": [0.5] * m}
 
     def spec_of(st):
         cc = dict(c, ints=list(st["tree.heights"]))
@@ -1496,6 +1663,11 @@ def _replay(obj, c, sig) -> int:
             off = math.log(2.0) * (len(c["tips"]) - 1) if c["r"] is not None else 0.0
             print("RK4 master equations:", rk)
             bad = kind != "ok" or not close(val - off, rk, 1e-6)
+        elif any(k in obj for k in ("model", "reference", "absolute", "other")):
+            name, ref = next((k, obj[k]) for k in ("model", "reference", "absolute", "other") if k in obj)
+            print({"model": "Lean model", "reference": "reference value", "absolute": "same shifts spelled absolutely", "other": "other numbering"}[name] + ":", ref,
+                  " node heights as handed over:", heights_list(c))
+            bad = kind != "ok" or not close(val, ref, 1e-9)
         else:
             bad = kind != "ok" or math.isnan(val)
     print("VIOLATES" if bad else "ok")
